@@ -346,7 +346,7 @@ func runCheck(prop, tier string, nWorkers int, solverName, only, repo string, bu
 			}(w)
 		}
 		wg.Wait()
-		fmt.Fprintf(os.Stderr, "gosym: %s: %d paths, %.1fs\n", e.Name, d.states-before, time.Since(te).Seconds())
+		fmt.Fprintf(os.Stderr, "gosym: %s: %d paths (%d sleep-set blocked so far), %.1fs\n", e.Name, d.states-before, d.pruned, time.Since(te).Seconds())
 		for _, c := range e.Covers {
 			if !d.covers[e.Name+":"+c] {
 				missingCovers = append(missingCovers, e.Name+":"+c)
